@@ -51,6 +51,8 @@ theorem pand_b2v_truthy (a : PyVal) (b : Bool) : (Rbacx.Py.pand a (b2v b)).truth
 theorem b2v_pand_truthy (b : Bool) (a : PyVal) : (Rbacx.Py.pand (b2v b) a).truthy = (b && a.truthy) := by
   cases b <;> simp [Rbacx.Py.pand, b2v, PyVal.truthy]
 
+theorem pand_truthy (a b : PyVal) : (Rbacx.Py.pand a b).truthy = (a.truthy && b.truthy) := by
+  simp only [Rbacx.Py.pand]; split <;> simp_all
 theorem isStr_pand_truthy (v : PyVal) : (Rbacx.Py.pand (Rbacx.Py.isInstance v "str") v).truthy = (v.isStr && v.truthy) := by
   cases v <;> simp [Rbacx.Py.pand, Rbacx.Py.isInstance, PyVal.isStr, PyVal.truthy]
 theorem isInstance_str_truthy (v : PyVal) : (Rbacx.Py.isInstance v "str").truthy = v.isStr := by
@@ -94,6 +96,22 @@ theorem sat_tryCatch {I : σ → Prop} {R E} {body : Stm σ τ} {c : List String
     · simp only [hc] at hb ⊢; exact hb
   · exact hb
   · exact hb
+
+/-- the join after `try: x = <call> except C: x = d`, WITHOUT forgetting where `x` came from (what follows is proved once per way
+    out of the `try`: use for small continuations) -/
+theorem sat_thenFlow_tryBind {I : σ → Prop} {R E} {st : σ} {x : Except Exc τ} {c : List String} {d : τ} {k : σ → τ → Stm σ ρ}
+    (hok : ∀ v, x = .ok v → SatI I R E (k st v))
+    (hcaught : ∀ e, x = .error e → Rbacx.PyX.catches c e = true → SatI I R E (k st d))
+    (hesc : ∀ e, x = .error e → Rbacx.PyX.catches c e = false → E st e) :
+    SatI I R E (thenFlow (tryCatch (bindE st x fun v => (st, .ok (.next v))) c (fun st' _ => (st', .ok (.next d)))) k) := by
+  cases x with
+  | ok v => exact hok v rfl
+  | error e =>
+    simp only [bindE_error, tryCatch_error]
+    by_cases hc : Rbacx.PyX.catches c e = true
+    · simp only [hc, if_true, thenFlow_next]; exact hcaught e rfl hc
+    · have hc' : Rbacx.PyX.catches c e = false := by simpa using hc
+      simp only [hc', Bool.false_eq_true, if_false, thenFlow_error]; exact hesc e rfl hc'
 
 theorem sat_ite {I : σ → Prop} {R E} {c : Bool} {a b : Stm σ τ}
     (ha : c = true → SatI I R E a) (hb : c = false → SatI I R E b) : SatI I R E (if c then a else b) := by
@@ -261,6 +279,7 @@ macro "sat_steps" : tactic => `(tactic|
     | apply satT_ite
     | apply satT_ret
     | apply satT_error
+    | apply sat_thenFlow_tryBind
     | apply sat_thenFlow
     | apply sat_bindE
     | apply sat_tryCatch
